@@ -152,9 +152,8 @@ def run(ctx, rep):
     # remover itself expanded) each call of the remover is classified by where its argument comes from; every
     # helper-attribute position of syn::Data must be reached, over the complete member lists, unconditionally.
     from .. import inline
-    s0l = [f for f in fns if f['name'] == 'strip_configuration_attribute']
-    if not s0l or not [f for f in fns if f['name'] == 'remove_configuration_from_attributes']:
-        raise core.Incomplete('Y3: the macro no longer strips member by member through strip_configuration_attribute / remove_configuration_from_attributes: position coverage of this shape (gathered attribute lists) is not modelled — no verdict')
+    s0l = [f for f in fns if f['name'] == 'strip_configuration_attribute'] or [t]
+    has_remover = bool([f for f in fns if f['name'] == 'remove_configuration_from_attributes'])
     s0 = s0l[0]
     ssite = {'file': s0['file'], 'line': s0['line']}
     helpers = tuple(f['name'] for f in fns if f['name'] not in ('remove_configuration_from_attributes', 'strip_configuration_attribute', 'typeshare'))
@@ -194,9 +193,43 @@ def run(ctx, rep):
             return str(x['variant']).split('::')[1].split('(')[0]
         return None
     reached = {}
-    for c in v['calls']:
-        if c.get('f') != 'remove_configuration_from_attributes' or not c.get('args'):
-            continue
+    # the stripped attribute lists: (A) the argument of every call of the remover; (B) the *gathered* form — one loop applies the
+    # good `retain` to every element of a collection of `&mut Vec<Attribute>` built by a helper: then every `.attrs` projection
+    # inside that collection's value is a stripped position (adaptors on the way to it count as truncation)
+    stripped = [(c['args'][0], c['guard'], [], c.get('line')) for c in v['calls'] if c.get('f') == 'remove_configuration_from_attributes' and c.get('args')]
+    if not has_remover:
+        for c in v['calls']:
+            if not (c.get('f') == 'retain' and c.get('args') and keeps_non_typeshare(c['args'][0]) and c.get('recv') is not None):
+                continue
+            r_ = vt.unvar(c['recv'])
+            while isinstance(r_, dict) and r_.get('k') in ('ref', 'deref', 'paren'):
+                r_ = vt.unvar(r_.get('v'))
+            if not (isinstance(r_, dict) and r_.get('k') == 'elem' and isinstance(r_.get('of'), dict)):
+                continue
+            outer_frames = [fr for fr in c['guard'] if fr.get('k') == 'if' and not fr.get('let_else_rest')]
+
+            def collect(node, anc, d=0):
+                if d > 60 or not isinstance(node, (dict, list)):
+                    return
+                if isinstance(node, list):
+                    for y in node:
+                        collect(y, anc, d + 1)
+                    return
+                if (node.get('k') == 'field' and node.get('name') == 'attrs') or (node.get('k') == 'atom' and (node.get('path') or [None])[-1] == 'attrs'):
+                    stripped.append((node, outer_frames, list(anc), c.get('line')))
+                    return
+                anc2 = anc + ([node.get('f')] if node.get('k') == 'call' and node.get('recv') is not None else [])
+                if node.get('k') == 'cond':
+                    anc2 = anc2 + ['filter']      # a member taken only under a condition
+                for key, y in node.items():
+                    if key in ('guard', 'ty', 'named', 'spec'):
+                        continue
+                    collect(y, anc2, d + 1)
+            collect(r_['of'], [])
+    if not stripped:
+        raise core.Incomplete('Y3: neither calls of remove_configuration_from_attributes nor a loop that retains over a gathered collection of attribute lists found — position coverage of this shape is not modelled, no verdict')
+    for arg0, guard0, extra_chain, line0 in stripped:
+        c = {'args': [arg0], 'guard': guard0, 'line': line0}
         conds = [fr for fr in c['guard'] if fr.get('k') == 'if']
         # `if let Fields::Named(..) = fields` selects a field shape (accounted for below), it is not a condition on members
         shape_sel = [x.split('::')[1].split('(')[0] for fr in conds if isinstance(vt.unvar(fr.get('c')), dict) and vt.unvar(fr['c']).get('k') == 'iflet' and not fr.get('neg') for x in vt.unvar(fr['c']).get('variants', []) if str(x).startswith('Fields::')]
@@ -206,7 +239,7 @@ def run(ctx, rep):
         if name != 'attrs' or not isinstance(b, dict) or b.get('k') != 'elem':
             continue
         coll, chain = source(b.get('of'))
-        trunc = [t for t in chain if t in TRUNC]
+        trunc = [t for t in chain if t in TRUNC] + [t for t in extra_chain if t in TRUNC]
         cb, cname = fld(coll)
         pos = None
         shape = 'whole'
